@@ -33,6 +33,18 @@ One object set up several times (the model object `SensObj` and the model files 
           → `ok|refused <recompute_sensitivity after set_up>`: `setUpSens` of the model on the object as the earlier lines left it;
   `hsub <s>`, `htot` → what `get_subset_sensitivity(s)` / `get_sensitivity()` of that object return now (`null`: null pointer), per voxel
           value and bound as for `sens`.
+One object through public setter calls after `set_up` (the model object `Obj` survives `cfg` lines):
+  `snew` → a newly constructed object;
+  `sset <setter> <args>` → the setter of the model (`num_subsets n`, `proj_data id`, `input_data id`, `additive id`, `normalisation id`,
+          `projector_pair id`, `max_segment m`, `max_tof m`, `zero b`, `use_subset_sens b`, `recompute b`, `sens_filename id`,
+          `subsens_filenames id`, `subset_sens_sptr s id`, `frame_num k`, `frame_defs id`, `prior id ready`, `parse zero maxseg`; ids: identity of
+          the pointer / string / value, 0 = null / empty) → `<already_set_up> n=… seg=… tof=… zero=… subsens=… rec=… frame=…` (what the getters show;
+          the implementation prefixes `err` when the setter threw);
+  `ssetup <data max segment> <data max TOF bin> <subsets balanced> <subsensitivity_sptrs[0] null> <files readable> <number of frames>` →
+          `ok|refused <flag and members as above>`: `Obj.setUp`;
+  `sreq <kind>` → `1`/`0`: is the request answered (`value|gradient|gps|hessian|ahessian` through the penalised functions, `…_wo` the
+          `*_without_penalty` ones, `sensitivity` = `add_subset_sensitivity`, `agrad` = `actual_compute_subset_gradient_without_penalty`,
+          `cached` = `get_subset_sensitivity`, `total` = `get_sensitivity`).
 The bound is the forward error bound `4·n·2⁻²⁴·Σ|terms|` (n = longest chain of float operations:
 row length(s) + contributions to the voxel + 10), plus `8·2⁻²⁴·|value|` for the value (log). -/
 namespace Driver.C05
@@ -113,6 +125,7 @@ structure Ctx where
   pmax : Rat := 0                        -- largest matrix element of the configuration
   sobj : SensObj VImg := SensObj.fresh   -- the object of the re-use history (survives `cfg`)
   sfiles : SensFiles VImg := SensFiles.empty
+  pobj : Obj := Obj.new                  -- the object of the setter history (survives `cfg`)
 
 def keyVal (toks : List String) (key : String) : Option String :=
   toks.findSome? fun t => if t.startsWith (key ++ "=") then some ((t.drop (key.length + 1)).toString) else none
@@ -336,12 +349,57 @@ def parseReq : String → Option Req
   | "ahessian" => some .approxHessian
   | _ => none
 
+
+/-- `sset` arguments → the setter of the model -/
+def parseSetter : List String → Option Setter
+  | ["num_subsets", n] => n.toInt?.map Setter.numSubsets
+  | ["proj_data", p] => p.toNat?.map Setter.projData
+  | ["input_data", p] => p.toNat?.map Setter.inputData
+  | ["additive", p] => p.toNat?.map Setter.additive
+  | ["normalisation", p] => p.toNat?.map Setter.normalisation
+  | ["projector_pair", p] => p.toNat?.map Setter.projectorPair
+  | ["max_segment", m] => m.toInt?.map Setter.maxSegment
+  | ["max_tof", m] => m.toInt?.map Setter.maxTof
+  | ["zero", b] => some (.zeroEndPlanes (b == "1"))
+  | ["use_subset_sens", b] => some (.useSubsetSens (b == "1"))
+  | ["recompute", b] => some (.recomputeSens (b == "1"))
+  | ["sens_filename", s] => s.toNat?.map Setter.sensFilename
+  | ["subsens_filenames", s] => s.toNat?.map Setter.subsensFilenames
+  | ["subsens_filenames", s, "bad"] => s.toNat?.map Setter.subsensFilenames
+  | ["subset_sens_sptr", s, p] => do some (.subsetSensSptr (← s.toNat?) (← p.toNat?))
+  | ["frame_num", k] => k.toInt?.map Setter.frameNum
+  | ["frame_defs", d] => d.toNat?.map Setter.frameDefs
+  | ["prior", p, r] => p.toNat?.map fun p => Setter.prior p (r == "1")
+  | ["parse", z, k] => k.toInt?.map fun k => Setter.parseKeys (z == "1") k
+  | _ => none
+
+def parsePReq : String → Option PReq
+  | "value" => some (.guarded .value true)
+  | "gradient" => some (.guarded (.gradient false) true)
+  | "gps" => some (.guarded (.gradient true) true)
+  | "hessian" => some (.guarded .hessian true)
+  | "ahessian" => some (.guarded .approxHessian true)
+  | "value_wo" => some (.guarded .value false)
+  | "gradient_wo" => some (.guarded (.gradient false) false)
+  | "hessian_wo" => some (.guarded .hessian false)
+  | "ahessian_wo" => some (.guarded .approxHessian false)
+  | "sensitivity" => some .addSubsetSens
+  | "agrad" => some .actualGradient
+  | "cached" => some .getSubsetSens
+  | "total" => some .getSens
+  | _ => none
+
+/-- the flag and the members the getters show (`withFlag = false`: `-` instead of the flag) -/
+def fmtObj (o : Obj) (withFlag : Bool := true) : String :=
+  let b (x : Bool) : String := if x then "1" else "0"
+  s!"{if withFlag then b o.already else "-"} n={o.m.numSubsets} seg={o.m.maxSeg} tof={o.m.maxTof} zero={b o.m.zeroEnd} subsens={b o.m.useSubsetSens} rec={b o.m.recompute} frame={o.m.frameNum}"
+
 def stepLine (c : Ctx) (line : String) : Ctx × String :=
   let toks := (line.trimAscii.toString.splitOn " ").filter (· ≠ "")
   let N (s : String) : Nat := s.toNat?.getD 0
   match toks with
   | "cfg" :: rest =>
-    ({ zero := keyVal rest "zero" == some "1", nvox := N ((keyVal rest "nvox").getD "0"), sobj := c.sobj, sfiles := c.sfiles }, "ok")
+    ({ zero := keyVal rest "zero" == some "1", nvox := N ((keyVal rest "nvox").getD "0"), sobj := c.sobj, sfiles := c.sfiles, pobj := c.pobj }, "ok")
   | ["hnew"] => ({ c with sobj := SensObj.fresh, sfiles := SensFiles.empty }, "ok")
   | "hsetup" :: useSub :: n :: setter :: totName :: subName :: balanced :: sep :: segSet :: segMax :: tofSet :: tofMax :: rest =>
     let o := if setter == "-" then c.sobj else { c.sobj with recompute := setter == "1" }
@@ -355,6 +413,24 @@ def stepLine (c : Ctx) (line : String) : Ctx × String :=
     ({ c with sobj := o', sfiles := f' }, (if acc then "ok " else "refused ") ++ (if o'.recompute then "1" else "0"))
   | ["hsub", s] => (c, fmtVImg c (c.sobj.getSub (N s)))
   | ["htot"] => (c, fmtVImg c c.sobj.getTot)
+  | ["snew"] => ({ c with pobj := Obj.new }, "ok")
+  | "sset" :: args =>
+    match parseSetter args with
+    | none => (c, "bad-op")
+    | some st =>
+      let o := c.pobj.set st
+      -- `set_subsensitivity_filenames` with a pattern `boost::format` cannot use (`bad`) throws after the flag is reset and the member
+      -- written (Mean.cxx:99-110): answer `err`, the state is the same
+      ({ c with pobj := o }, (if args.getLast? == some "bad" then "err " else "") ++ fmtObj o)
+  | ["ssetup", segMax, tofMax, balanced, sub0Null, filesOK, numFrames] =>
+    let d : Data := { segMax := fun _ => segMax.toInt?.getD 0, tofMax := fun _ => tofMax.toInt?.getD 0, numFrames := fun _ => numFrames.toInt?.getD 0 }
+    let w : Call := { balanced := fun _ => balanced == "1", sub0Null := sub0Null == "1", filesOK := filesOK == "1" }
+    let r := c.pobj.setUp d w
+    ({ c with pobj := r.2 }, (if r.1 then "ok " else "refused ") ++ fmtObj r.2)
+  | ["sreq", kind] =>
+    match parsePReq kind with
+    | none => (c, "bad-op")
+    | some r => (c, if (c.pobj.answer r).isSome then "1" else "0")
   | "img" :: rest => ({ c with img := (rest.map hexD).toArray }, "ok")
   | "inp" :: rest => ({ c with inp := (rest.map hexD).toArray }, "ok")
   | "bin" :: rest =>
